@@ -383,6 +383,7 @@ impl Property for C11 {
             spaced = !s1.is_empty() && !s2.is_empty();
         }
         let mut o = Outcome::pass(text.clone());
+        o.portable = Some(text.clone());
         o.class(if index < pairs { "pair" } else { "triple" });
         if let Some(refs) = compare(&text, &mut o) {
             if spaced {
@@ -404,6 +405,7 @@ impl Property for C11 {
                 let toks: Vec<String> = (0..n).map(|_| self.random_token(&mut tape)).collect();
                 let text = self.layout(&toks, &mut tape, true);
                 let mut o = Outcome::pass(text.clone());
+                o.portable = Some(text.clone());
                 o.class("random-sequence");
                 if let Some(refs) = compare(&text, &mut o) {
                     o.nontrivial = nontrivial_text(&text, &refs);
@@ -438,6 +440,7 @@ impl Property for C11 {
                 let canon = toks.join(" ");
                 let text = self.layout(&toks, &mut tape, true);
                 let mut o = Outcome::pass(text.clone());
+                o.portable = Some(text.clone());
                 o.class("corpus-relayout");
                 if let Some(refs) = compare(&text, &mut o) {
                     o.nontrivial = nontrivial_text(&text, &refs);
@@ -464,6 +467,7 @@ impl Property for C11 {
                 let lead = *tape.pick(&["", " ", "\n", "// c\n", "\r\n\t"]);
                 let text = format!("{}let s = {};", lead, lit);
                 let mut o = Outcome::pass(text.clone());
+                o.portable = Some(text.clone());
                 o.class("string-literal");
                 if let Some(refs) = compare(&text, &mut o) {
                     o.nontrivial = nontrivial_text(&text, &refs) || lit.contains('\\');
@@ -491,6 +495,40 @@ impl Property for C11 {
     }
     fn vacuity_floor(&self) -> Vec<(&'static str, f64)> {
         vec![("corpus-relayout", 1.0), ("string-literal", 1.0)]
+    }
+    fn run_text(&mut self, text: &str) -> Outcome {
+        // replay of a saved source text: tokens, positions, and the value of every
+        // `let <name> = "<literal>";` it binds
+        let mut o = Outcome::pass(text.to_string());
+        o.class("text-replay");
+        if let Some(refs) = compare(text, &mut o) {
+            o.nontrivial = nontrivial_text(text, &refs);
+            let shape_ok = refs.len() == 5
+                && refs[0].src == "let"
+                && refs[1].kind == Kind::Bareword
+                && refs[2].src == "="
+                && refs[3].kind == Kind::Quoted
+                && refs[4].src == ";";
+            if shape_ok {
+                self.ucg.reset();
+                let name = refs[1].src.clone();
+                let want = refs[3].text.clone();
+                match self.ucg.eval(text, true) {
+                    Ok(v) => {
+                        let got = match v.as_ref() {
+                            Val::Tuple(fs) => fs.iter().find(|(k, _)| k.as_ref() == name).map(|(_, v)| v.clone()),
+                            _ => None,
+                        };
+                        match got.as_deref() {
+                            Some(Val::Str(s)) if s.as_ref() == want => {}
+                            other => o.fail("C11/string-value", format!("literal {} should evaluate to {:?} but the build binds {:?}", refs[3].src, want, other)),
+                        }
+                    }
+                    Err(e) => o.fail("C11/string-value", format!("literal does not evaluate: {}", e)),
+                }
+            }
+        }
+        o
     }
 }
 
